@@ -30,7 +30,7 @@ DIMS = [
     ("custom_scalars_module", [None, "crate::scalars"]),
     ("other_variant", [False, True]),
     ("external_enums", [None, ["Role"], ["Role", "Nope"]]),
-    ("selected", [None, "First", "SecondOp", "Missing"]),
+    ("selected", [None, "First", "SecondOp", "Missing", "third_op", "ThirdOp"]),
     ("outdir", [False, True]),
     ("format", [False, True]),
     ("qname", ["q.graphql", "sub/q.v2.graphql"]),
@@ -49,7 +49,9 @@ def the_document():
     sel_b = [Field("rename", [Spread("UserB"), Field("role")], args=[("id", "$id"), ("name", "$name")])]
     frs = space.used_fragments(sel_a + sel_b, lib)
     return Doc(frs + [Op("query", "First", sel_a, [("f", "Filter", None)]),
-                      Op("mutation", "SecondOp", sel_b, [("id", "ID!", None), ("name", "String!", None), ("r", "Role", None)])])
+                      Op("mutation", "SecondOp", sel_b, [("id", "ID!", None), ("name", "String!", None), ("r", "Role", None)]),
+                      # an operation whose name is not CamelCase (selected by its exact name; `ThirdOp` names no operation)
+                      Op("subscription", "third_op", [Field("tick")])])
 
 
 def library_options(cfg):
